@@ -6,8 +6,9 @@
     * a relative error bound `3·2^(−2p)` for dd `+ −`;
     * the exactness clauses: the dd sum and product of two doubles are exact with a correctly rounded head, `x − x = 0`,
       multiplication by a power of two is exact (subnormal tails included);
-    * special values: NaN and infinity propagation of `+ − × ÷` like doubles — and the two places where the
-      pinned code does NOT behave like doubles (finite/inf, sqrt(+inf), x/0 sign), as counterexample theorems;
+    * special values: NaN and infinity propagation of `+ − × ÷` like doubles; division agrees with double division on EVERY
+      special-value case (`C10_special_div_like_doubles`: finite/inf, x/±0 signs, inf/inf, 0/0), `sqrt(+inf) = +inf`
+      (after the repairs of operator/= and sqrt);
     * the property's normalisation clause `|lo| ≤ ½ulp(hi)` is FALSE of the pinned code (D21): counterexample
       theorems by evaluation of the model at the witnesses replayed in every run.
   What is NOT proved: the numeric error constants k·2^-106 / k·2^-212 (measured exactly on rationals for every
@@ -267,7 +268,7 @@ theorem C10_special_propagate_inf_mul (f : Fmt) (a b : DD.DD) (s t : Bool) (m : 
     · simp [DD.mul, twoProd, F64.mul, F.isFinite]
     · simp [DD.div, DD.DD.isnan, DD.DD.iszero, F.isNaN, feq, pzero, F64.div, F.isFinite]
 
-/-! ### where the pinned code is NOT like doubles / not normalised: counterexamples by evaluation -/
+/-! ### witnesses by evaluation: the repaired special values, and where the code is not normalised (D21) -/
 
 namespace C10W
 /-- D21 witness operands (transcript `dd add 3d7f59a6c5a55a6c ba0e336faa370217 bd7f59a6c5a55a6d ba18c48fffffffff`). -/
@@ -294,16 +295,75 @@ theorem C10_dd_add_strict_normalisation_counterexample :
     toBits64 (DD.add binary64 C10W.a C10W.b).hi = 0xba39f791f546e042 ∧
     toBits64 (DD.add binary64 C10W.a C10W.b).lo = 0xb6e4000000000000 := by decide
 
+/-- **division behaves like double division on every special-value case**: whenever an operand's head is NaN or ±inf, or the
+    divisor's head is ±0, the head of the dd quotient is exactly what `a.hi / b.hi` gives in double arithmetic — NaN for
+    NaN operands, 0/0 and inf/inf; the signed infinity for `inf / finite`, `inf / ±0` and `x / ±0`; the signed zero for
+    `finite / ±inf` — and the tail is `+0` in the zero / infinity cases.  (Before the repairs `finite / inf` was NaN and `x / 0`
+    was `+inf` whatever the signs.) -/
+theorem C10_special_div_like_doubles (f : Fmt) (a b : DD.DD)
+    (h : a.hi.isFinite = false ∨ b.hi.isFinite = false ∨ b.hi.isZero = true) :
+    (DD.div f a b).hi = F64.div f a.hi b.hi := by
+  obtain ⟨ah, al⟩ := a
+  obtain ⟨bh, bl⟩ := b
+  simp only at h
+  cases ah with
+  | nan => simp [DD.div, DD.DD.isnan, F.isNaN, F64.div]
+  | inf s =>
+    cases bh with
+    | nan => simp [DD.div, DD.DD.isnan, F.isNaN, F64.div]
+    | inf t => simp [DD.div, DD.DD.isnan, DD.DD.iszero, F.isNaN, feq, pzero, F64.div, F.isFinite]
+    | fin t m =>
+      by_cases hm : m = 0
+      · subst hm
+        simp [DD.div, DD.DD.isnan, DD.DD.iszero, F.isNaN, feq, pzero, F64.div, F.isFinite, F.toInt, F.sign]
+      · have hz : feq (F.fin t m) pzero = false := by
+          cases t <;> simp [feq, pzero, F.toInt] <;> omega
+        simp [DD.div, DD.DD.isnan, DD.DD.iszero, F.isNaN, hz, F64.div, F.isFinite]
+  | fin s n =>
+    cases bh with
+    | nan => simp [DD.div, DD.DD.isnan, F.isNaN, F64.div]
+    | inf t => simp [DD.div, DD.DD.isnan, DD.DD.iszero, F.isNaN, feq, pzero, F64.div, F.isFinite]
+    | fin t m =>
+      have hm : m = 0 := by
+        rcases h with h | h | h
+        · simp [F.isFinite] at h
+        · simp [F.isFinite] at h
+        · cases m with
+          | zero => rfl
+          | succ k => simp [F.isZero] at h
+      subst hm
+      have hzb : feq (F.fin t 0) pzero = true := by cases t <;> simp [feq, pzero, F.toInt]
+      by_cases hn : n = 0
+      · subst hn
+        have hza : feq (F.fin s 0) pzero = true := by cases s <;> simp [feq, pzero, F.toInt]
+        simp [DD.div, DD.DD.isnan, DD.DD.iszero, F.isNaN, hza, hzb, F64.div, DD.qnan]
+      · have hza : feq (F.fin s n) pzero = false := by
+          cases s <;> simp [feq, pzero, F.toInt] <;> omega
+        simp [DD.div, DD.DD.isnan, DD.DD.iszero, F.isNaN, hza, hzb, F64.div, hn, F.sign]
+
+/-- the three cases that the repairs changed, spelled out: `finite / ±inf` is the zero signed like the quotient with a `+0`
+    tail; `±inf / ±0` is the infinity signed like the quotient; `sqrt(+inf) = +inf`. -/
+theorem C10_special_div_sqrt_inf (f : Fmt) (s t : Bool) (n : Nat) (al bl : F) :
+    DD.div f ⟨.fin s n, al⟩ ⟨.inf t, bl⟩ = ⟨.fin (s != t) 0, pzero⟩ ∧
+    DD.div f ⟨.inf s, al⟩ ⟨.fin t 0, bl⟩ = ⟨.inf (s != t), pzero⟩ ∧
+    DD.sqrt f ⟨.inf false, al⟩ = ⟨.inf false, al⟩ := by
+  refine ⟨?_, ?_, ?_⟩
+  · simp [DD.div, DD.DD.isnan, DD.DD.iszero, F.isNaN, feq, pzero, F64.div, F.isFinite]
+  · have hzb : feq (F.fin t 0) pzero = true := by cases t <;> simp [feq, pzero, F.toInt]
+    have hza : feq (F.inf s) pzero = false := by simp [feq, pzero]
+    simp [DD.div, DD.DD.isnan, DD.DD.iszero, F.isNaN, hza, hzb, F.sign]
+  · simp [DD.sqrt, DD.DD.iszero, feq, pzero]
+
 set_option exponentiation.threshold 5000 in
 set_option maxRecDepth 100000 in
-/-- finite / infinity is NaN in the pinned dd division (doubles: a signed zero); `sqrt(+inf)` is NaN
-    (doubles: +inf); `−inf / +0` is `+inf` (doubles: −inf). -/
-theorem C10_special_not_like_doubles_counterexample :
-    (DD.div binary64 C10W.two C10W.pinf).hi = .nan ∧
+/-- the witnesses of the former findings `dd.div.inf_divisor`, `dd.sqrt.inf`, `dd.div.zero_divisor_sign`, now positive:
+    `2 / +inf = +0`, `sqrt(+inf) = +inf`, `−inf / +0 = −inf` — each equal to what double arithmetic gives. -/
+theorem C10_special_like_doubles_witnesses :
+    (DD.div binary64 C10W.two C10W.pinf).hi = pzero ∧
     F64.div binary64 C10W.two.hi C10W.pinf.hi = pzero ∧
-    (DD.sqrt binary64 C10W.pinf).hi = .nan ∧
+    (DD.sqrt binary64 C10W.pinf).hi = .inf false ∧
     F64.sqrt binary64 C10W.pinf.hi = .inf false ∧
-    (DD.div binary64 ⟨.inf true, pzero⟩ ⟨pzero, pzero⟩).hi = .inf false ∧
+    (DD.div binary64 ⟨.inf true, pzero⟩ ⟨pzero, pzero⟩).hi = .inf true ∧
     F64.div binary64 (.inf true) pzero = .inf true := by decide
 
 set_option exponentiation.threshold 5000 in
